@@ -50,6 +50,21 @@ CHECKS = {
    technique="exhaustive enumeration of graphs × target paths ≤2/3 segments × replacements × createParents, selector-driven transforms for every selector ≤3 clauses × 3 transform functions, and all 2-step transform sequences, against a functional-update reference with hand-hashed re-linking",
    text="Every focused transform in the bound must equal the reference functional update (content, order, links recomputed by hand), leave the input node and blocks unchanged, call the callback once with the node at the target, fail exactly where the target is unreachable; walking transforms must replace exactly the matched nodes and re-link across links; chained transforms never disturb earlier results.",
    note="Trusted: reference update in mc/props/c16, reference DAG-CBOR encoder + crypto/sha256 for new links. Root replacement is limited to what the root's prototype accepts; root removal and non-canonical indices are unspecified."),
+ "C01": dict(
+   category="model_checking", design_ref="DESIGN.md §5 C01",
+   technique="bounded-exhaustive enumeration of values × builder programs by deviation bound (default route, every single and every pair of route deviations, Reset-reuse) executed on the real builders, read back by a complete observer; all-pairs DeepEqual/Copy agreement across implementations",
+   text="Every value of the bounded universe is assembled through every program within deviation bound 2 (entry shortcut vs key/value assembly with string or node keys, scalar assign vs AssignNode of basic/kind-specific/foreign nodes, size hints -1/0/exact+2, fresh vs Reset-reused builder); the result must read back as exactly that value with all access forms agreeing and wrong-kind accessors erroring; DeepEqual and Copy must agree with abstract equality on all pairs of a 200+-value set across implementation pairs.",
+   note="Generic implementations (basicnode Any/kind prototypes, foreign refnode as source). Typed implementations are covered by C08. uint64>MaxInt64 is outside DeepEqual/Copy."),
+ "C11": dict(
+   category="model_checking", design_ref="DESIGN.md §5 C11", engine="bfs",
+   technique="exhaustive enumeration of post-build operation sequences (depth 2/3 over 17 operations) on nodes from ~100 producer classes, with a complete-snapshot invariant re-evaluated twice after every step on every node sharing structure",
+   text="For every producer (builder route classes, decoders, loads, reader-backed bytes, subset matches, transform results) every operation sequence in the bound is executed; after each step every tracked node must read (all accessors, twice) exactly as in the snapshot taken when it was made.",
+   note="Trusted: the observer mc/ref/observe.go. Typed (bindnode) producers are covered in the typed check. Writes by the caller into handed-back slices are excluded as the property states."),
+ "C12": dict(
+   category="model_checking", design_ref="DESIGN.md §5 C12", engine="bfs",
+   technique="explicit-state breadth-first search over assembler call sequences (≤10/14 calls, nesting ≤2/3) with the contract's state machine as reference model; every transition replayed on a fresh real builder; repeated-key and wrong-kind rejections injected at every position through all three key routes",
+   text="All legal call sequences within the bound are explored; each call must succeed, each injected repeated key must return ErrRepeatedMapKey from the call that supplied it and leave the assembler usable (all continuations explored, sticky rejection flag in the state), wrong kinds must error, and Build must equal the model value.",
+   note="Reference model = contract state machine in mc/props/c12. Engines: basicnode Any/Map/List (typed engines: see typed check). Misuse orders are not generated."),
 }
 
 NOT_YET = "check not built yet in this round (planned in DESIGN.md §5; will be claimed when its explorer exists)"
@@ -84,6 +99,7 @@ def main():
         },
         "engines": [
             {"name": "enum", "path": "mc/core", "serves_properties": sorted(k for k,v in CHECKS.items() if v.get("engine","enum")=="enum"), "kind_free_text": "odometer / trie enumeration of bounded input and program spaces executed on the real code, sharded over 16 cores"},
+            {"name": "bfs", "path": "mc/props/c12", "serves_properties": sorted(k for k,v in CHECKS.items() if v.get("engine")=="bfs"), "kind_free_text": "explicit-state search whose transitions call the real code; successor = replay of the shortest path on a fresh real object + 1 call; canonical key from the reference model"},
             {"name": "fault", "path": "mc/lsx", "serves_properties": sorted(k for k,v in CHECKS.items() if v.get("engine")=="fault"), "kind_free_text": "environment-answer enumerator: scripted storage reader/writer faults at every interaction of a recorded run"},
         ],
         "checks": checks,
